@@ -488,6 +488,14 @@ class Machine:
                 bb = t["target"]
                 continue
             if t["k"] == "call" and t.get("target") is not None:
+                c = t["callee"]
+                fn = self.SM.TABLE.get(c.get("rpath") or c.get("path") or "")
+                if fn is not None:
+                    r = fn(self, st, pf, t, [self.operand(st, pf, a) for a in t["args"]], (pk, bb))
+                    if r is not NotImplemented and isinstance(r, tuple) and r and r[0] in ('agg', 'int'):
+                        self.write_place(st, pf, t["dest"], r)
+                        bb = t["target"]
+                        continue
                 # e.g. Device::new in a promoted: treat as opaque
                 self.write_place(st, pf, t["dest"], self.unk(body["locals"][t["dest"]["local"]]["ty"], "promoted-call", fr.crate))
                 bb = t["target"]
@@ -978,6 +986,8 @@ class Machine:
                 if fr.post is not None and fr.post[0] == 'not':
                     e = self.as_int(st, ret)
                     ret = INT(sx.Un('Not', e, 1, False)) if e is not None else TOP
+                elif fr.post is not None and fr.post[0] == 'wrapv':
+                    ret = self.SM.mk_enum(self, caller, fr.post[1], fr.post[2], [ret])
                 elif fr.post is not None:
                     pt = caller.crate.types[fr.post[1]]
                     ret = self.SM.mk_enum(self, caller, fr.post[1], 1 if pt.get("path") == "std::option::Option" else 0, [ret])
@@ -1118,6 +1128,10 @@ class Machine:
             r = self.call_or_else(st, fr, t, args)
             if r is not None:
                 return r
+        if rp in self.COMBINATORS:
+            r = self.call_combinator(st, fr, t, args, rp)
+            if r is not None:
+                return r
         if rp in ("std::cmp::impls::<impl std::cmp::PartialEq<&B> for &A>::eq", "std::cmp::impls::<impl std::cmp::PartialEq<&B> for &A>::ne") and len(args) == 2:
             # `&a == &b` on references: dispatch to the referent's own PartialEq::eq with one level of reference removed
             g = c.get("rgenerics") or c.get("generics") or []
@@ -1202,6 +1216,80 @@ class Machine:
             nf.ret_target = t["target"]
             body = self.P.body[key]
             cargs = [f] if body["kind"] == "closure" else []
+            for i, a in enumerate(cargs[:body["arg_count"]]):
+                s2.cells[('L', nf.fid, i + 1)] = a
+            s2.frames.append(nf)
+            out.append(s2)
+        return out
+
+    # Option/Result adaptors as the ladders they abbreviate.  Variant indices: Option None=0 Some=1, Result Ok=0 Err=1.
+    # per input variant:  ('keep', out variant)            same payload in the variant of the result type
+    #                     ('payload',)                      the payload itself is the result
+    #                     ('value', out variant|None, n)    argument n (wrapped in the variant)
+    #                     ('none', out variant)             the variant without payload
+    #                     ('call', out variant|None, n, passes payload)   run the closure / fn item in argument n (wrap its result)
+    COMBINATORS = {
+        "std::option::Option::<T>::ok_or_else": {1: ('keep', 0), 0: ('call', 1, 1, False)},
+        "std::option::Option::<T>::ok_or": {1: ('keep', 0), 0: ('value', 1, 1)},
+        "std::result::Result::<T, E>::map_err": {0: ('keep', 0), 1: ('call', 1, 1, True)},
+        "std::option::Option::<T>::and_then": {1: ('call', None, 1, True), 0: ('none', 0)},
+        "std::result::Result::<T, E>::and_then": {0: ('call', None, 1, True), 1: ('keep', 1)},
+        "std::result::Result::<T, E>::or_else": {0: ('keep', 0), 1: ('call', None, 1, True)},
+        "std::option::Option::<T>::unwrap_or_else": {1: ('payload',), 0: ('call', None, 1, False)},
+        "std::result::Result::<T, E>::unwrap_or_else": {0: ('payload',), 1: ('call', None, 1, True)},
+        "std::option::Option::<T>::map_or": {1: ('call', None, 2, True), 0: ('value', None, 1)},
+        "std::result::Result::<T, E>::map_or": {0: ('call', None, 2, True), 1: ('value', None, 1)},
+        "std::option::Option::<T>::map_or_else": {1: ('call', None, 2, True), 0: ('call', None, 1, False)},
+        "std::result::Result::<T, E>::ok": {0: ('keep', 1), 1: ('none', 0)},
+        "std::result::Result::<T, E>::err": {1: ('keep', 1), 0: ('none', 0)},
+    }
+
+    def call_combinator(self, st, fr, t, args, rp):
+        spec = self.COMBINATORS[rp]
+        views = self.SM.enum_view(self, st, fr, args[0])
+        rty = self.ret_ty(fr, t)
+        if views is None or rty is None:
+            return None
+        keys = {}
+        for act in spec.values():
+            if act[0] == 'call':
+                f = args[act[2]] if act[2] < len(args) else None
+                key = self.P.norm_path(fr.key, f[1]) if f is not None and f[0] in ('closure', 'fnitem') else None
+                if key is None or not self.should_inline(st, key):
+                    return None
+                keys[act[2]] = (f, key)
+        out = []
+        for ass, vix, get in views:
+            act = spec.get(vix)
+            if act is None:
+                return None
+            s2 = st.copy()
+            if not all(self.assume(s2, e, tr) for e, tr in ass):
+                continue
+            f2 = s2.frames[-1]
+            if act[0] != 'call':
+                if act[0] == 'keep':
+                    val = self.SM.mk_enum(self, f2, rty, act[1], [get(0)])
+                elif act[0] == 'payload':
+                    val = get(0)
+                elif act[0] == 'none':
+                    val = self.SM.mk_enum(self, f2, rty, act[1], [])
+                else:
+                    val = args[act[2]] if act[1] is None else self.SM.mk_enum(self, f2, rty, act[1], [args[act[2]]])
+                self.write_place(s2, f2, t["dest"], val)
+                f2.bb = t["target"]
+                out.append(s2)
+                continue
+            f, key = keys[act[2]]
+            s2.counter += 1
+            nf = Frame("f%d" % s2.counter, key, self.P.crate_of[key])
+            nf.dest = t["dest"]
+            nf.ret_target = t["target"]
+            if act[1] is not None:
+                nf.post = ('wrapv', rty, act[1])
+            body = self.P.body[key]
+            payload = [get(0)] if act[3] else []
+            cargs = ([f] + payload) if body["kind"] == "closure" else payload
             for i, a in enumerate(cargs[:body["arg_count"]]):
                 s2.cells[('L', nf.fid, i + 1)] = a
             s2.frames.append(nf)
